@@ -148,6 +148,10 @@ pub fn run_campaign(
             }
             local.add("faults_fired/clock-jump >= 1 s", jumps);
         }
+        let other = obs.outcome.events.iter().filter(|e| matches!(&e.ev, dstsim::Ev::User { tag: "frame-of-other-point", .. })).count() as u64;
+        if other > 0 {
+            local.add("frames whose LLR scale belongs to another Eb/N0 point than their decoder's", other);
+        }
         local.merge(&st.probes.clone());
         if st.chain_skipped {
             local.inc("skipped/chain precondition (C12 territory)");
